@@ -429,14 +429,15 @@ Proof.
     destruct (inv_held _ _ _ I j Hj') as (n & L). apply (Hfwd j n L).
 Qed.
 
-Lemma inv_link : forall h H F p c tc,
-  Inv h H F -> In tc F -> root tc = c -> (exists np, live h p np) -> ~ In p (ids tc) ->
-  exists h' F', link_child h p c = Ok h' /\ Inv h' (remove1 c H) F' /\ length h' = length h /\ pres_live h h'.
+Lemma inv_link_prep : forall h H F1 F2 p c tc np,
+  Inv h H (F1 ++ tc :: F2) -> root tc = c -> live h p np -> ~ In p (ids tc) ->
+  exists tp pp krp nc, In tp (F1 ++ F2) /\ In (p, pp, krp) (nodes None tp) /\
+    live h c nc /\ s_next nc = None /\ lchain h (s_children np) krp /\ NoDup krp /\ ~ In c krp /\ ~ In p krp /\ p <> c.
 Proof.
-  intros h H F p c tc I Htc Ec (np & Lp) Hptc.
+  intros h H F1 F2 p c tc np I Ec Lp Hptc.
+  assert (Htc0 : In tc (F1 ++ tc :: F2)) by (apply in_or_app; right; left; reflexivity).
   destruct (inv_tree_of _ _ _ _ _ I Lp) as (tp & Htp & Hptp).
   assert (Hne : tp <> tc) by (intros E; subst; contradiction).
-  pose proof Htc as Htc0. apply in_split in Htc. destruct Htc as (F1 & F2 & EF). subst F.
   assert (Htp12 : In tp (F1 ++ F2)).
   { apply in_app_or in Htp. apply in_or_app. destruct Htp as [Htp|[Htp|Htp]]; [left; exact Htp|congruence|right; exact Htp]. }
   destruct (entry_of tp None p Hptp) as (pp & krp & Hep).
@@ -446,14 +447,26 @@ Proof.
   rewrite (live_fun _ _ _ _ Lp0 Lp) in *. clear np0 Lp0.
   pose proof (inv_surv _ _ _ _ I Htc0) as (Hftc & (nc & Lc & Nc & Vc) & _). rewrite Ec in Lc.
   assert (Hctc : In c (ids tc)) by (rewrite <- Ec; apply root_in_ids).
-  assert (Hpc : p <> c) by (intros E; apply Hptc; rewrite E; exact Hctc).
-  destruct (link_child_facts h p c nc np krp Lc Lp Hpc Nc Chp) as (h' & Rl & Facts).
-  - eapply entry_kids_nodup; eassumption.
+  exists tp, pp, krp, nc. split; [exact Htp12|]. split; [exact Hep|]. split; [exact Lc|]. split; [exact Nc|].
+  split; [exact Chp|]. split; [eapply entry_kids_nodup; eassumption|]. split; [|split].
   - intros Hin. assert (Hc' : In c (ids tp)) by (eapply kid_in_ids; eassumption).
     apply Hne. eapply inv_disjoint; [exact I|exact Htp|exact Htc0|exact Hc'|exact Hctc].
   - eapply entry_not_own_kid; eassumption.
-  - destruct (inv_link_facts h h' H F1 F2 tc tp p c pp krp I Ec Htp12 Hep Facts) as (I' & PL).
-    exists h', (map (graft p tc) (F1 ++ F2)). split; [exact Rl|]. split; [exact I'|]. split; [apply (lf_len _ _ _ _ _ Facts)|exact PL].
+  - intros E. apply Hptc. rewrite E. exact Hctc.
+Qed.
+
+Lemma inv_link : forall h H F p c tc,
+  Inv h H F -> In tc F -> root tc = c -> (exists np, live h p np) -> ~ In p (ids tc) ->
+  exists h' F', link_child h p c = Ok h' /\ Inv h' (remove1 c H) F' /\ length h' = length h /\ pres_live h h' /\
+    exists nc', live h' c nc' /\ s_parent nc' = Some p.
+Proof.
+  intros h H F p c tc I Htc Ec (np & Lp) Hptc.
+  apply in_split in Htc. destruct Htc as (F1 & F2 & EF). subst F.
+  destruct (inv_link_prep h H F1 F2 p c tc np I Ec Lp Hptc) as (tp & pp & krp & nc & Htp & Hep & Lc & Nc & Chp & NDk & Hck & Hpk & Hpc).
+  destruct (link_child_facts h p c nc np krp Lc Lp Hpc Nc Chp NDk Hck Hpk) as (h' & Rl & Facts).
+  destruct (inv_link_facts h h' H F1 F2 tc tp p c pp krp I Ec Htp Hep Facts) as (I' & PL).
+  exists h', (map (graft p tc) (F1 ++ F2)). split; [exact Rl|]. split; [exact I'|]. split; [apply (lf_len _ _ _ _ _ Facts)|].
+  split; [exact PL|]. destruct (lf_c _ _ _ _ _ Facts) as (nc0 & nc' & _ & Lc' & Pc' & _). exists nc'. tauto.
 Qed.
 
 (* the precondition checked by [attachable] *)
@@ -472,15 +485,16 @@ Qed.
 Lemma inv_add_child : forall h H F p c tc do_clone,
   Inv h H F -> In tc F -> root tc = c -> (exists np, live h p np) -> ~ In p (ids tc) ->
   exists h' F', add_child h p c do_clone = Ok h' /\
-    Inv h' (if do_clone then H else remove1 c H) F' /\ length h' = length h /\ pres_live h h'.
+    Inv h' (if do_clone then H else remove1 c H) F' /\ length h' = length h /\ pres_live h h' /\
+    exists nc', live h' c nc' /\ s_parent nc' = Some p.
 Proof.
   intros h H F p c tc do_clone I Htc Ec Lp Hptc. unfold add_child. destruct do_clone.
   - assert (Lc : exists nc, live h c nc).
     { pose proof (inv_surv _ _ _ _ I Htc) as (Hf & _). rewrite <- Ec. eapply flat_live; [exact Hf|apply root_in_ids]. }
     destruct (inv_clone h H F c I Lc) as (h1 & R1 & I1 & Len1 & PL1). rewrite R1. cbn [bind].
     destruct Lp as (np & Lp). destruct (PL1 p np Lp) as (np1 & Lp1).
-    destruct (inv_link h1 (c :: H) F p c tc I1 Htc Ec (ex_intro _ np1 Lp1) Hptc) as (h2 & F2 & R2 & I2 & Len2 & PL2).
+    destruct (inv_link h1 (c :: H) F p c tc I1 Htc Ec (ex_intro _ np1 Lp1) Hptc) as (h2 & F2 & R2 & I2 & Len2 & PL2 & Hc2).
     rewrite remove1_head in I2. exists h2, F2. split; [exact R2|]. split; [exact I2|]. split; [lia|].
-    eapply pres_live_trans; eassumption.
+    split; [eapply pres_live_trans; eassumption|exact Hc2].
   - cbn [bind]. apply (inv_link h H F p c tc I Htc Ec Lp Hptc).
 Qed.
